@@ -9,6 +9,45 @@ TECH = "bounded symbolic execution of the real odml functions (CrossHair core, z
 
 CLAIMED = {
     # id: (design_ref, what is decided, trusted base / assumptions)
+    "C02": ("DESIGN.md 5/C02",
+            "For every symbolic document within the bounds (text attributes and string values over all of Unicode, length <= 1-2; unbounded ints; pools of "
+            "floats/dates/times; 2-tuples; every cardinality shape; every forest over 1 Document + 2 Sections + 2 Properties) ODMLWriter.to_string / DictWriter "
+            "-> text layer -> ODMLReader.from_string / DictReader (strict and lenient) returns an equal document (tree, order, ids, attributes, dtypes, "
+            "cardinalities, typed values), the written structure uses only the odML 1.1 layout keys, and a dictionary written by an independent reference "
+            "writer of that layout loads to the document it describes. Path-tree exhaustion under z3; holds = no path within the bounds violates.",
+            "json.dumps/loads and yaml.dump/safe_load are behind the contract stub vlib/stubs/textlayer.py (validated against the real libraries in the "
+            "preflight; counterexamples replay through the real text layer and odml.save/odml.load); ''==None for text attributes; open finding "
+            "F-C02-tuple-delimiters assumed away."),
+    "C03": ("DESIGN.md 5/C03",
+            "One inductive step per editing operation (22 opcode obligations: append, insert, extend, remove, parent=, item assignment, reorder, rename, "
+            "constructors with parent=, create_*, clone+attach, merge, link/clean) from every API-built well-formed pre-state over 1 Document + 3 Sections "
+            "or 1 Document + 2 Sections + 2 Properties with symbolic names: whether the call succeeds or raises, the post-state is a well-formed tree "
+            "(each child listed exactly once in exactly its parent's list, back-pointers, acyclic, document = root) and path/traversal queries terminate.",
+            "Histories through states larger than the universe are outside the claim; the input classes of the open findings F-C03-cycle and "
+            "F-C03-double-attach are assumed away and replayed as KNOWN-FINDING."),
+    "C04": ("DESIGN.md 5/C04",
+            "Same one-step harness as C03 with the predicate: sibling names pairwise distinct, names non-empty, ids canonical UUID strings; names are "
+            "symbolic strings (all Unicode, length <= 1) or another object's id; plus constructors/new_id with a canonical id mutated by symbolic "
+            "switches (case, braces, urn prefix, truncation at any length, one character replaced at any position, free garbage).",
+            "uuid.UUID is executed (pure Python); universe size as C03."),
+    "C05": ("DESIGN.md 5/C05",
+            "One inductive step per value-editing operation (constructor, values=, dtype=, append, extend, insert, item assignment, remove, merge, clone) "
+            "on a Property with symbolic dtype (canonical names, DType members, 2-/3-tuple, None) and 0..2 conforming values, with a symbolic argument "
+            "(tagged union of ints, bools, floats, None, '', [], {}, text, date/time natives, lists of two; strict on/off): stored values have exactly the "
+            "Python type of the dtype, refusals are ValueError and change nothing, values are in normal form (re-assignment and text round trip).",
+            "Text for int/float/boolean/date/time/datetime comes from finite pools (their converters are C code that realises the text); symbolic text over "
+            "the alphabet '[],(); -.1at\\n' for string-like and tuple dtypes; float and date pools; no NaN/inf."),
+    "C06": ("DESIGN.md 5/C06",
+            "Frame condition on the one-step harnesses of C03 and C05 plus constructors and setters with invalid arguments: whenever the call raises, the "
+            "identity-based snapshot of every object reachable from the universe (parents, ordered child lists, names, ids, types, attributes, values, "
+            "cardinalities, link/include/merge state) equals the snapshot before the call and nothing new is attached.",
+            "Same universes and bounds as C03/C05; the quick tier repeats half of the value opcodes (C05 asserts the same frame condition on every refusal)."),
+    "C08": ("DESIGN.md 5/C08",
+            "For symbolic documents, stand-alone Sections and Properties (names, types, dependencies, dependency values symbolic; duplicate names, empty "
+            "names, shared ids, dtype-inconsistent values and every cardinality/count combination injected) the multiset of (object, issue id, rank) "
+            "reported by Validation equals the one computed by an independent reference implementation of the documented rules; validation never raises; "
+            "only 101 and 200-203 are errors.",
+            "The prototype rule 403 is excluded; the ambiguous substring region of the dependency-value rule is assumed away (stated in the evidence)."),
     "C09": ("DESIGN.md 5/C09",
             "For every assigned value shape (None, unbounded ints, pairs/lists of None|unbounded int, short strings, floats, wrong-length tuples) "
             "the three cardinality setters leave a normal-form pair or raise ValueError keeping the previous value; warnings 500/501/502 appear "
